@@ -54,6 +54,19 @@ Theorem C15_average_final_state_is_weighted_mean :
 Proof. exact reached_final. Qed.
 Print Assumptions C15_average_final_state_is_weighted_mean.
 
+(* consequence of the two theorems above: whenever both are reported,
+   average_final_state is the last block of average_states (states[-1]) - after
+   any history, in particular after merge followed by further add /
+   add_deterministic on an operand or on the merged result *)
+Theorem C15_average_final_state_is_last_averaged_state :
+  forall (ss sf kk : bool) (d ns : nat), (ss = true -> (d <= ns)%nat) ->
+  forall (ops : list sop) (i : nat) (x : sobj) (vs vf : vec),
+    Forall (sop_ok ss sf kk d ns) ops -> nth_error (srun d [] ops) i = Some x -> ss = true ->
+    snd (average_states x) = SVal vs -> snd (average_final d x) = SVal vf ->
+    vf = lastblock d vs.
+Proof. exact reached_final_is_last_block. Qed.
+Print Assumptions C15_average_final_state_is_last_averaged_state.
+
 (* the invariant behind both: for every object reached, each running sum of
    states / final states that is present holds the weighted sum of what was
    added (sum_inv), is present whenever a processor maintains it, and the
@@ -86,4 +99,24 @@ Proof.
   split.
   - repeat constructor; apply W.
   - eexists. split; [vm_compute; reflexivity|]. split; vm_compute; reflexivity.
+Qed.
+
+(* merge followed by further adds on an operand and on the merged result
+   (store_states, runs not kept): the history of seeded change C15_4 *)
+Example C15_nonvacuous_merge_then_add :
+  let t (id : Z) (v : Z) := mkst id (Some [(v, 1)]) (Some [(v, 1)]) in
+  let ops := [SNew true false false; SAdd 0%nat (t 0 1) 1%Qc;
+              SNew true false false; SAdd 1%nat (t 1 3) 1%Qc;
+              SMerge 0%nat 1%nat None; SAdd 0%nat (t 2 5) 1%Qc; SAdd 2%nat (t 3 8) 1%Qc] in
+  Forall (sop_ok true false false 1%nat 1%nat) ops /\
+  exists a m, nth_error (srun 1%nat [] ops) 0%nat = Some a /\ nth_error (srun 1%nat [] ops) 2%nat = Some m /\
+    sres_z (snd (average_states a)) = (1, [(3, 1)]) /\ sres_z (snd (average_final 1%nat a)) = (1, [(3, 1)]) /\
+    sres_z (snd (average_states m)) = (1, [(4, 1)]) /\ sres_z (snd (average_final 1%nat m)) = (1, [(4, 1)]).
+Proof.
+  assert (W : forall id v, wf true false 1%nat 1%nat (mkst id (Some [(v, 1)]) (Some [(v, 1)]))).
+  { intros id v. split; [eexists; split; reflexivity|split; [eexists; split; reflexivity|]].
+    intros v0 H. injection H as <-. reflexivity. }
+  split; [repeat constructor; apply W|].
+  eexists. eexists. split; [vm_compute; reflexivity|]. split; [vm_compute; reflexivity|].
+  repeat split; vm_compute; reflexivity.
 Qed.
